@@ -120,7 +120,7 @@ def check(pid, tier):
     t0 = time.time()
     with vlib.Scratch(pid) as scratch:
         drv = vlib.build_driver(scratch)
-        known, fresh, drift, assume = [], [], [], []
+        known, fresh, drift, assume, transient = [], [], [], [], []
         cov = {"states": 0, "transitions": 0, "traces_validated_against_impl": 0, "samples": [],
                "exhaustive": True, "engines": [], "monitor_events": 0, "replay_equal_to_model_prediction": 0,
                "deciding_operators": [], "checker_cmd": "./check %s %s" % (pid, tier)}
@@ -137,12 +137,25 @@ def check(pid, tier):
                 known.append((b, [f for f in kf if finding_matches(f, pid, b)][0]))
             confirmed = []
             if mine:
+                # a violation counts only if the same case shows it again when executed on its own, with the
+                # machine to itself (two further executions at most); what shows once and never again is
+                # reported as TRANSIENT and does not raise an alarm
                 ns = sorted({b["n"] for b in mine})[:200]
-                again = eng.run(tier, scratch, drv, only_cases=[b["case"] for b in mine if b["n"] in ns])
-                still = {(b["n"], b["op"]) for b in again["bad"]}
+                subset = []
+                seen_n = set()
+                for b in mine:
+                    if b["n"] in ns and b["n"] not in seen_n:
+                        seen_n.add(b["n"])
+                        subset.append(b["case"])
+                still = set()
+                for attempt in range(2):
+                    again = eng.run(tier, scratch, drv, only_cases=subset)
+                    still |= {(b["n"], b["op"]) for b in again["bad"]}
+                    if still:
+                        break
                 confirmed = [b for b in mine if (b["n"], b["op"]) in still]
                 if not confirmed:
-                    raise vlib.Inconclusive("violations did not reproduce: %s" % [(b["n"], b["op"]) for b in mine][:5])
+                    transient += [(res["engine"], b["n"], b["op"], b["cfg"]) for b in mine][:5]
             for b in confirmed:
                 b["engine"] = res["engine"]
                 hit = [f for f in kf if finding_matches(f, pid, b)]
@@ -164,7 +177,11 @@ def check(pid, tier):
         cov["transitions"] = max(1, cov["transitions"])
         cov["drift_cases"] = len(drift)
         cov["known_findings_hit"] = len(known)
+        cov["transient_observations"] = len(transient)
         vlib.write_evidence(pid, tier, cov, time.time() - t0, len(fresh), assume)
+        for eng_name, n, op, cfg in transient:
+            print("TRANSIENT property=%s engine=%s case=%s operator=%s cfg=%s (seen once, not in two further executions of the case)" % (
+                pid, eng_name, n, op, json.dumps(cfg)))
         for d in drift[:10]:
             print("DRIFT property=%s engine=%s case=%s cfg=%s %s" % (pid, d["engine"], d["n"], json.dumps(d["cfg"]), d.get("note", "")))
         for f in kf:
